@@ -276,7 +276,7 @@ package sql
 //@ func (*XAConn).ShouldBeHeld
 //@   prop C17
 //@   requires c != nil && c.Conn != nil && c.Conn.res != nil
-//@   ensures true
+//@   ensures held-for-known-databases: result == (c.Conn.res.shouldBeHeld || c.Conn.res.dbType != types.DBTypeUnknown)
 //@ func (*XAConn).releaseIfNecessary
 //@   prop C17
 //@   requires c != nil && c.Conn != nil && c.Conn.res != nil && c.xaBranchXid != nil
@@ -292,6 +292,22 @@ package sql
 //@   requires c != nil && c.Conn != nil && c.Conn.res != nil && c.Conn.txCtx != nil && c.xaBranchXid != nil
 //@   modifies c.isConnKept, syncmap(c.Conn.res, "keeper")
 //@   ensures true
+// A connection that holds a prepared branch for phase two (isConnKept) of a resource whose branches
+// live on their connection is not closed when database/sql discards it: phase two needs it.
+// (the generated name of a database type is never empty)
+//@ ext (seata.apache.org/seata-go/pkg/datasource/sql/types.DBType).String
+//@   ensures result != ""
+//@ iface (driver.Conn).Close
+//@   ensures true
+//@ func (*XAConn).Close
+//@   prop C17
+//@   requires c != nil && c.Conn != nil && c.Conn.res != nil && c.Conn.targetConn != nil
+//@   modifies heap.all, ghost.all
+//@   let kept := c.isConnKept && (c.Conn.res.shouldBeHeld || c.Conn.res.dbType != types.DBTypeUnknown)
+//@   ensures held-connection-stays-open: kept ==> result == nil && !called("(driver.Conn).Close#1") && c.xaBranchXid == old(c.xaBranchXid)
+//@   ensures otherwise-closed: !kept ==> called("(driver.Conn).Close#1")
+//@   may_panic
+
 //@ func (*XAConn).cleanXABranchContext
 //@   prop C17
 //@   requires c != nil
